@@ -241,7 +241,7 @@ func (w *Worker) chooseFree(n int, what string) int {
 	return 0
 }
 
-const maxConcretize = 64
+const maxConcretize = 300
 
 // concretize forks over the feasible values of t.
 func (w *Worker) concretize(t *Term, what string) uint64 {
